@@ -37,10 +37,17 @@ def check_determine(ctx, case):
     if not 0 <= size <= 11:  # outside the statement's domain (only reachable through a hand-written replay file)
         return
     off = size - T.MAJOR_SIZES[T.letter_dist(a[0], b[0])]
-    # asking about the reversed pair first (whatever it answers) must not change the answer for (a, b)
+    # asking about the reversed pair first (whatever it answers), or using the other public helpers of the module, must not
+    # change the answer for (a, b)
     try:
         intervals.determine(b, a, form != "long")
     except Exception:  # noqa - the reversed pair may lie outside the statement's domain
+        pass
+    try:
+        intervals.get_interval(a[0], 4, ["G", "Eb", "F#", "C", "Bb"][len(a + b) % 5])
+        intervals.interval("D", b[0], 2)
+        intervals.measure(b, a)
+    except Exception:  # noqa
         pass
     if form == "long":
         expected = "%s %s" % (quality, number)
@@ -58,8 +65,12 @@ def check_determine(ctx, case):
                          lambda: "determine(%r, %r, True) -> %r" % (a, b, sh)):
                 back = ctx.ok("determine/short/apply", intervals.from_shorthand, a, sh)
                 if not failed(back):
-                    ctx.check(back == b, "determine/short/inverse",
-                              lambda: "determine(%r, %r, True) -> %r, from_shorthand(%r, %r) -> %r" % (a, b, sh, a, sh, back))
+                    if T.unmixed(a) and T.unmixed(b):
+                        ctx.check(back == b, "determine/short/inverse",
+                                  lambda: "determine(%r, %r, True) -> %r, from_shorthand(%r, %r) -> %r" % (a, b, sh, a, sh, back))
+                    else:  # a mixed spelling cannot be reproduced character by character: same letter and pitch
+                        ctx.check(T.valid(back) and back[0] == b[0] and T.pc(back) == T.pc(b), "determine/short/inverse",
+                                  lambda: "determine(%r, %r, True) -> %r, from_shorthand(%r, %r) -> %r" % (a, b, sh, a, sh, back))
     unison = a[0] == b[0]
     labels = ["determine:" + form, "quality:" + quality, "number:" + number]
     ctx.note_case(off != 0 or (unison and abs(T.acc(b) - T.acc(a)) >= 2), labels)
@@ -128,6 +139,11 @@ def _names(ctx):
 def sub_determine(ctx, shard, n):
     k, names = _names(ctx)
     pairs = [[a, b] for a in names for b in names if 0 <= pair_size(a, b) <= 11]
+    # mixed spellings (sharps and flats in one name, any order) are valid names too
+    mixed = [nm for nm in T.all_names(3) if not T.unmixed(nm)]
+    plain = T.unmixed_names(1)
+    pairs += [[a, b] for a in mixed for b in plain + mixed[::3] if 0 <= pair_size(a, b) <= 11]
+    pairs += [[a, b] for a in plain for b in mixed if 0 <= pair_size(a, b) <= 11]
     if shard == 0:
         ctx.exhaustive("determine: ordered pairs of unmixed names spanning 0..11 semitones along their letters x {long, short}",
                        "<= %d accidentals" % k, 2 * len(pairs))
